@@ -445,7 +445,7 @@ func envStdStructR() interface{} {
 		Mi: map[int]string{1: "eins", 2: "zwei", 3: "drei"},
 		O:  InnerR{[]string{"p", "q", "r"}, "nine", 9},
 		P:  &WithMaybe{A: 3.5, B: intp(7), C: nil},
-		T:  time.Unix(1600000200, 0),
+		T:  time.Unix(1600000200, 0).In(zoneEST),
 		Ll: [][]int{{3, 4}, {5}},
 		Lo: []InnerR{{nil2(), "c", 3}, {[]string{"v"}, "d", 4}},
 		Mo: map[string]InnerR{"u": {[]string{"s"}, "c", 3}, "v": {[]string{"t"}, "d", 4}},
@@ -518,7 +518,7 @@ func envStdStruct() interface{} {
 		Mi: map[int]string{1: "one", 2: "two", 3: "three"},
 		O:  Inner{7, "seven", spareStrs([]string{"x", "y", "z"})},
 		P:  &WithMaybe{A: 1.5, B: intp(5), C: nil},
-		T:  time.Unix(1600000000, 0),
+		T:  time.Unix(1600000000, 0).In(time.UTC),
 		Ll: [][]int{{1, 2}, {3}},
 		Lo: []Inner{{1, "a", nil2()}, {2, "b", []string{"t"}}},
 		Mo: map[string]Inner{"u": {1, "a", []string{"q"}}, "v": {2, "b", []string{"r"}}},
@@ -535,7 +535,7 @@ func envStdStruct2() interface{} {
 		Mi: map[int]string{}, // an EMPTY map (typed from the static Go type)
 		O:  Inner{70, "seventy", []string{"u", "v", "w"}},
 		P:  &WithMaybe{A: 9.5, B: nil, C: strp("cc")},
-		T:  time.Unix(1700000000, 0),
+		T:  time.Unix(1700000000, 0).In(zoneJST),
 		Ll: [][]int{{5}, {}, {8}},
 		Lo: []Inner{{3, "c", []string{"x"}}, {4, "d", []string{}}, {5, "e", []string{"y", "z"}}},
 		Mo: map[string]Inner{"u": {11, "aa", []string{"q1"}}, "w": {12, "bb", []string{}}},
@@ -560,7 +560,7 @@ func envStdStruct3() interface{} {
 		Mi: map[int]string{1: "uno", 2: "dos", 3: "tres"},
 		O:  Inner{8, "eight", []string{"y", "z", "w"}},
 		P:  &WithMaybe{A: 2.5, B: intp(6), C: nil},
-		T:  time.Unix(1600000100, 0),
+		T:  time.Unix(1600000100, 0).In(zoneAnon),
 		Ll: [][]int{{2, 3}, {4}},
 		Lo: []Inner{{2, "b", nil2()}, {3, "c", []string{"u"}}},
 		Mo: map[string]Inner{"u": {2, "b", []string{"r"}}, "v": {3, "c", []string{"s"}}},
@@ -668,6 +668,14 @@ func setOr(dst, src reflect.Value) bool {
 var stdTyped = []string{"map", "struct", "map2", "struct2", "map3", "struct3", "structR"}
 
 // sameTyped lists, per environment, the environments that bind the same names to the same types.
+// host time values carry different zones: the text of a time value is a function of that value
+// (instant and zone) alone, never of which time value the process happened to render first
+var (
+	zoneEST  = time.FixedZone("EST", -5*3600)
+	zoneJST  = time.FixedZone("JST", 9*3600)
+	zoneAnon = time.FixedZone("", 19800)
+)
+
 var sameTyped = map[string][]string{
 	"map": stdTyped, "struct": stdTyped, "map2": stdTyped, "struct2": stdTyped, "map3": stdTyped, "struct3": stdTyped, "structR": stdTyped,
 	"ifaceA": {"ifaceA", "ifaceA2"}, "ifaceA2": {"ifaceA", "ifaceA2"}, "ifaceB": {"ifaceB"},
@@ -754,7 +762,7 @@ func envAlt2Struct() interface{} {
 		Mi: map[int]string{1: "one", 2: "two", 3: "three"},
 		O:  Inner{7, "seven", []string{"x", "y", "z"}},
 		P:  &WithMaybe{A: 1.5, B: intp(5), C: nil},
-		T:  time.Unix(1600000000, 0),
+		T:  time.Unix(1600000000, 0).In(zoneEST),
 		Ll: []int{1, 2},
 		Lo: []Inner{{1, "a", nil2()}, {2, "b", []string{"t"}}},
 		Mo: map[string]Inner{"u": {1, "a", []string{"q"}}, "v": {2, "b", []string{"r"}}},
@@ -970,6 +978,11 @@ var progPool = []Prog{
 	{"strtotime(\"2021-05-06 07:08:09 Asia/Tokyo\") - strtotime(\"2021-05-06 07:08:09 Europe/Paris\")", "none", false, false},
 	{"strtotime(\"@86400\") == '1970-01-02 00:00:00 UTC'", "none", false, false},
 	{"'2022-02-03T04:05:06+08:00' >= t", "map", false, false},
+	{"string(t)", "map", false, false},
+	{"[t, '2020-01-02 03:04:05']", "struct", false, false},
+	{"{w: t, z: strtotime(\"@86400\")}", "map", false, false},
+	{"[\"k\": t]", "struct", false, false},
+	{"t", "struct", false, false},
 	{"[] == l || [:] == m", "map", false, false},
 	{"len([]) + len([:])", "none", false, false},
 	{"get([], 0, 5)", "none", false, false},
